@@ -228,39 +228,56 @@ type OblResult struct {
 }
 
 type HarnessResult struct {
-	Harness     string            `json:"harness"`
-	Pkg         string            `json:"pkg"`
-	Status      string            `json:"status"` // ok | violation | inconclusive | error
-	Msg         string            `json:"msg,omitempty"`
-	Obligations []OblResult       `json:"obligations"`
-	Issues      []Issue           `json:"issues,omitempty"`
-	Funcs       []string          `json:"functions_encoded"`
-	Stubs       []string          `json:"stubs"`
-	Paths       int               `json:"paths"`
-	Forks       int               `json:"forks"`
-	Merges      int               `json:"merges"`
-	Steps       int               `json:"ssa_steps"`
-	Replays     int               `json:"native_replays"`
-	Validated   int               `json:"witnesses_run_natively"`
-	ValidatedOK int               `json:"witnesses_agreeing"`
-	ValidationNotes []string      `json:"validation_notes,omitempty"`
-	FeasQ       int               `json:"feasibility_queries"`
-	Queries     int               `json:"solver_queries"`
-	SolverS     float64           `json:"solver_s"`
-	WallS       float64           `json:"wall_s"`
-	Terms       int               `json:"terms"`
-	Events      int               `json:"events,omitempty"`
-	Threads     int               `json:"threads,omitempty"`
-	Bounds      map[string]string `json:"bounds"`
-	FPMode      string            `json:"fp_mode,omitempty"`
-	Nondets     map[string]string `json:"nondets,omitempty"`
-	Known       []string          `json:"known_lines,omitempty"`
-	Violations  []string          `json:"violation_lines,omitempty"`
+	Harness         string            `json:"harness"`
+	Pkg             string            `json:"pkg"`
+	Status          string            `json:"status"` // ok | violation | inconclusive | error
+	Msg             string            `json:"msg,omitempty"`
+	Obligations     []OblResult       `json:"obligations"`
+	Issues          []Issue           `json:"issues,omitempty"`
+	Funcs           []string          `json:"functions_encoded"`
+	Stubs           []string          `json:"stubs"`
+	Paths           int               `json:"paths"`
+	Forks           int               `json:"forks"`
+	Merges          int               `json:"merges"`
+	Steps           int               `json:"ssa_steps"`
+	Replays         int               `json:"native_replays"`
+	Validated       int               `json:"witnesses_run_natively"`
+	ValidatedOK     int               `json:"witnesses_agreeing"`
+	ValidationNotes []string          `json:"validation_notes,omitempty"`
+	FeasQ           int               `json:"feasibility_queries"`
+	Queries         int               `json:"solver_queries"`
+	SolverS         float64           `json:"solver_s"`
+	WallS           float64           `json:"wall_s"`
+	Terms           int               `json:"terms"`
+	Events          int               `json:"events,omitempty"`
+	Threads         int               `json:"threads,omitempty"`
+	Bounds          map[string]string `json:"bounds"`
+	FPMode          string            `json:"fp_mode,omitempty"`
+	Nondets         map[string]string `json:"nondets,omitempty"`
+	Known           []string          `json:"known_lines,omitempty"`
+	Violations      []string          `json:"violation_lines,omitempty"`
 }
 
 func runChild(prop, tier, only, resultPath string, seed int) {
 	t0 := time.Now()
 	res := &HarnessResult{Harness: only, Status: "error", Bounds: map[string]string{}}
+	// memory watchdog: an exploration that needs more than the cap is reported as inconclusive instead of being
+	// killed by the kernel (which would look like an engine crash)
+	go func() {
+		var ms runtime.MemStats
+		for {
+			time.Sleep(2 * time.Second)
+			runtime.ReadMemStats(&ms)
+			if ms.Sys > 10<<30 {
+				res.Status = "inconclusive"
+				res.Msg = fmt.Sprintf("unsupported: symbolic exploration exceeded the memory cap (10 GiB) after %.0fs", time.Since(t0).Seconds())
+				res.WallS = time.Since(t0).Seconds()
+				b, _ := json.MarshalIndent(res, "", " ")
+				os.WriteFile(resultPath, b, 0o644)
+				os.Exit(0)
+			}
+		}
+	}()
 	defer func() {
 		res.WallS = time.Since(t0).Seconds()
 		b, _ := json.MarshalIndent(res, "", " ")
@@ -762,7 +779,9 @@ func runParent(prop, tier, only string, jobs int, list bool, seed int) int {
 		fmt.Println("no harnesses selected")
 		code = 3
 	}
-	writeEvidence(prop, tier, seed, results, time.Since(t0).Seconds(), "")
+	if only == "" && os.Getenv("VERIF_NO_EVIDENCE") == "" { // single-harness runs and seeded-change trials do not replace the property's evidence
+		writeEvidence(prop, tier, seed, results, time.Since(t0).Seconds(), "")
+	}
 	return code
 }
 
